@@ -160,7 +160,7 @@ ASSUME = [
 
 def mk(variant, ktype, fname_expr):
     return Contract(
-        target="cotengra.utils:DiskDict.__setitem__", variant=variant, props=["C15"],
+        target="cotengra.utils:DiskDict.__setitem__", variant=variant, props=["C15", "C14"],
         self_type=DiskT, params={"k": ktype, "v": Ty.Key},
         ghost={"fs": (FsT, "None")},
         externals=EXT, assumptions=ASSUME,
@@ -172,6 +172,8 @@ def mk(variant, ktype, fname_expr):
             "fs[FN].st == 2 and fs[FN].val == v",
             # entries stored before are untouched (frame)
             "forall(lambda p: implies(is_entry(p) and p != FN, fs[p] == old(fs[p])))",
+            # ... and it is held in memory under the key it was stored with (read-your-write: C14)
+            "old(k) in self._mem_cache and self._mem_cache[old(k)] == v",
         ],
     )
 
@@ -262,3 +264,147 @@ def mk_get(variant, ktype, fname_expr, memkey):
 
 get_flat = mk_get("flat-key", Ty.Key, "self._path.joinpath(old(k))", "old(k)")
 CONTRACTS.append(get_flat)
+
+
+# ------------------------------------------------------------------ presence
+def mk_contains(variant, ktype, fname_expr, memkey):
+    return Contract(
+        target="cotengra.utils:DiskDict.__contains__", variant=variant, props=["C15", "C14"],
+        self_type=DiskRT, params={"k": ktype},
+        ghost={"fs": (FsT, "None")},
+        externals=EXT_R, assumptions=ASSUME,
+        lets={"FN": fname_expr},
+        requires=["forall(lambda p: 0 <= fs[p].st and fs[p].st <= 2)"],
+        returns=Ty.Bool,
+        ensures=[
+            # present iff held in memory or a file with the entry's name exists
+            f"result == (({memkey} in self._mem_cache) or (self._directory is not None and fs[FN].st != 0))",
+            # reading does not write
+            "forall(lambda p: fs[p] == old(fs[p]))",
+        ],
+    )
+
+
+contains_flat = mk_contains("flat-key", Ty.Key, "self._path.joinpath(old(k))", "old(k)")
+CONTRACTS.append(contains_flat)
+
+SplitK = Ty.Tuple([Ty.Key, Ty.Key])
+get_split = mk_get("split-key", SplitK, "self._path.joinpath(old(k)[0], old(k)[1])", "old(k)")
+contains_split = mk_contains("split-key", SplitK, "self._path.joinpath(old(k)[0], old(k)[1])", "old(k)")
+CONTRACTS += [get_split, contains_split]
+
+
+# --------------------------------------------------- native view of the ghost
+# The run-time monitor evaluates the same clauses on a REAL DiskDict over a real
+# directory: `fs` is then a lazy view of that directory (absent / partial /
+# complete per file), snapshotted by deepcopy for old(...).
+class _FileRec:
+    def __init__(self, st, val=None):
+        self.st, self.val = st, val
+
+    def __eq__(self, other):
+        return isinstance(other, _FileRec) and (self.st, self.val) == (other.st, other.val)
+
+    def __repr__(self):
+        return f"File(st={self.st}, val={self.val!r})"
+
+
+class _FsView:
+    def __init__(self, root, frozen=None):
+        self.root, self.frozen = root, frozen
+
+    def files(self):
+        import pathlib
+
+        return [p for p in pathlib.Path(self.root).rglob("*") if p.is_file()]
+
+    def read(self, p):
+        import pickle
+
+        try:
+            with open(p, "rb") as f:
+                return _FileRec(2, pickle.load(f))
+        except FileNotFoundError:
+            return _FileRec(0)
+        except IsADirectoryError:
+            return _FileRec(0)
+        except Exception:  # noqa: BLE001 - a strict prefix of a pickle / garbage
+            return _FileRec(1)
+
+    def __getitem__(self, p):
+        if self.frozen is not None:
+            return self.frozen.get(str(p), _FileRec(0))
+        return self.read(p)
+
+    def __deepcopy__(self, memo):
+        return _FsView(self.root, {str(p): self.read(p) for p in self.files()})
+
+
+class _PathUniverse:
+    """candidate entry names + whatever exists under the directory right now"""
+
+    def __init__(self, root, names):
+        self.root, self.names = root, names
+
+    def __iter__(self):
+        import pathlib
+
+        seen = []
+        for p in list(self.names) + [q for q in pathlib.Path(self.root).rglob("*") if q.is_file()]:
+            if str(p) not in seen:
+                seen.append(str(p))
+                yield pathlib.Path(p)
+
+
+def _is_entry_native(p):
+    return not str(p).endswith(".tmp")
+
+
+def _mk_gen(kind, split):
+    def gen(rng):
+        import pathlib
+        import pickle
+        import shutil
+        import tempfile
+        from cotengra.utils import DiskDict
+
+        root = tempfile.mkdtemp(prefix="vt-diskdict-")
+        keys = [("ab", "cdef01"), ("ab", "cdef02"), ("zz", "000000")] if split else ["abcdef01", "abcdef02", "zz000000"]
+        path_of = (lambda k: pathlib.Path(root).joinpath(*k)) if split else (lambda k: pathlib.Path(root) / k)
+        # some entries already stored by an earlier process (complete files)
+        stored = {}
+        for k in keys:
+            if rng.random() < 0.5:
+                path_of(k).parent.mkdir(parents=True, exist_ok=True)
+                stored[k] = {"path": [(0, 1)], "score": rng.random()}
+                with open(path_of(k), "wb") as f:
+                    pickle.dump(stored[k], f)
+        if rng.random() < 0.3:
+            # a stale temporary file left by a killed writer (never an entry name)
+            path_of(keys[0]).parent.mkdir(parents=True, exist_ok=True)
+            with open(str(path_of(keys[0])) + ".999.1.tmp", "wb") as f:
+                f.write(b"\x80\x04partial")
+        d = DiskDict(root)
+        k = rng.choice(keys)
+        if k in stored and rng.random() < 0.5:
+            d._mem_cache[k] = stored[k]  # also held in memory
+            if rng.random() < 0.5:
+                # ... and meanwhile overwritten on disk by another process sharing the directory
+                with open(path_of(k), "wb") as f:
+                    pickle.dump({"path": [(9, 9)], "score": -1.0}, f)
+        case = {"self": d, "ghost": {"fs": _FsView(root)}, "universe": _PathUniverse(root, [path_of(x) for x in keys]),
+                "cleanup": lambda: shutil.rmtree(root, ignore_errors=True)}
+        if kind == "set":
+            case["args"] = (k, {"path": [(1, 2)], "score": 1.5})
+        else:
+            case["args"] = (k,)
+        case["describe"] = f"{kind} key={k!r} stored on disk={sorted(map(str, stored))} in memory={list(d._mem_cache)}"
+        return case
+
+    return gen
+
+
+for _c, _kind, _split in ((set_flat, "set", False), (set_split, "set", True), (get_flat, "get", False), (get_split, "get", True),
+                          (contains_flat, "contains", False), (contains_split, "contains", True)):
+    _c.gen = _mk_gen(_kind, _split)
+    _c.natives = {"is_entry": _is_entry_native}
